@@ -48,7 +48,10 @@ def prog_params(val, token):
     if val == 0:
         return p                       # no progress field at all -> callback gets 0
     p["progress"] = val
-    if val % 3 == 1:
+    if val == 5:
+        p["total"] = 0                 # "0 of 0": a server that does not know the amount of work yet
+        p["message"] = "starting"
+    elif val % 3 == 1:
         p["total"] = val * 2
         p["message"] = f"m{val}"
     elif val % 3 == 0:
@@ -59,6 +62,8 @@ def prog_params(val, token):
 def expected_cb_args(val):
     if val == 0:
         return (0, None, None)
+    if val == 5:
+        return (5, 0, "starting")
     if val % 3 == 1:
         return (val, val * 2, f"m{val}")
     return (val, None, None)
